@@ -170,6 +170,12 @@ struct FirstSeen([u16; MAX_THREADS]);
 
 /// Implements atomic fence behavior
 pub(crate) fn fence(ordering: Ordering) {
+    if ordering == Ordering::SeqCst {
+        // The order in which two `SeqCst` fences execute decides which of them
+        // synchronizes with the other, so both orders have to be explored.
+        rt::branch_seq_cst_fence();
+    }
+
     rt::synchronize(|execution| match ordering {
         Ordering::Acquire => fence_acq(execution),
         Ordering::Release => fence_rel(execution),
